@@ -60,6 +60,11 @@ def parseOp1 (s : String) : Option Op :=
   | ["nop"] => some .nop
   | ["obf"] => some .obf
   | ["ret0"] => some .ret0
+  | ["gh", "ln", s] => some (.gh (.ln s))
+  | ["gh", "ec"] => some (.gh .ec)
+  | ["gh", "aa", v] => some (.gh (.aa v))
+  | ["gh", "hbe"] => some (.gh .hbe)
+  | ["gh", "mv", d] => (parseOid d).map (fun d => .gh (.mv d))
   | ["ra", a, v] => (parseOid a).map (.ra · v)
   | _ => none
 
